@@ -24,6 +24,7 @@ impl McfEngine {
         let mut cfg = GenCfg::quick();
         cfg.max_departures = if thorough { 7 } else { 5 };
         cfg.max_total_need = if thorough { 30 } else { 20 };
+        cfg.giant = true;
         McfEngine { cfg }
     }
 }
@@ -134,7 +135,7 @@ pub fn reference_optimum(fl: &Flat, ti: usize, allot: &BTreeMap<usize, u64>) -> 
         match a {
             Act::Seg(i) => {
                 let lb = fl.required(*i) as i64;
-                let ub = fl.segs[*i].lim.map(|l| l as i64).unwrap_or(100);
+                let ub = fl.segs[*i].lim.map(|l| l as i64).unwrap_or(UNCAP);
                 add_lb(&mut g, &mut excess, &mut fixed_cost, 2 * k, 2 * k + 1, lb, ub, dur * c.service as i128);
             }
             Act::Slot(i) => {
@@ -196,7 +197,7 @@ impl Engine for McfEngine {
     fn assumptions(&self) -> Vec<String> {
         vec![
             "the circulation is balanced per depot (as many vehicles end in a depot as start there) and limited by the per-type depot capacity".into(),
-            "'unbounded' formation is 100 vehicles, uncapacitated arcs carry up to 1000 (both far above the explored fleets)".into(),
+            "an 'unbounded' formation and uncapacitated arcs carry up to 1000 vehicles (far above the explored fleets, giant-formation cases included: <= 160)".into(),
             "the allotment of maintenance tracks to types is taken from hook H4 (the statement takes it as given)".into(),
             "if the implementation beats the reference without breaking a constraint the case is reported as oracle-suspect (inconclusive), never as violation".into(),
         ]
